@@ -26,6 +26,7 @@ RULE = ("requests `parse|tryfrom_str|tryfrom_string|str2dec S<hex utf-8>`; every
         "Non-trivial = >= 8 consecutive digits, or 38..40 significant digits, or exponent present, or rejected near-miss")
 BUILDS = {"quick": [("dev", ()), ("release", ())],
           "thorough": [("dev", ()), ("release", ()), ("release", ("packed",)), ("o0-nochk", ())]}
+MODE_INDEPENDENT = True      # half of every batch runs under a non-default thread rounding mode
 REQUIRED_SITES = {"parse.chunk_accept": 1000, "parse.chunk_reject": 500, "parse.tail_digit": 1000,
                   "parse.ovf_ndigits": 100, "parse.ovf_39": 100, "parse.ovf_max": 50, "parse.exp_saturated": 20}
 BUDGET = {"quick": 20, "thorough": 250}
